@@ -109,8 +109,15 @@ structure FillPost (S : SchemaView) (st : St) (cd : CD) (st' : St) (cd' : CD) (n
   vids : ∀ x ∈ cdVids cd, x ∈ cdVids cd'
   outs : noErr → OutNew st st' (fun f => f.vid ∈ cdVids cd')
 
-/-- The sites inputs can reach during the traversal: F-12, N-6, N-2, N-3, F-7. -/
-def FillSite (s : Site) : Prop := PostSite s ∨ s = .retransform
+/-- The sites inputs can reach during the traversal: F-12, N-6, N-2, N-3, and F-7 when (`r`) the
+part of the query being traversed contains a `@fold @transform … @transform`. -/
+def FillSite (r : Bool) (s : Site) : Prop := PostSite s ∨ (s = .retransform ∧ r = true)
+
+theorem FillSite.mono {r r' : Bool} {s : Site} (h : FillSite r s) (hr : r = true → r' = true) :
+    FillSite r' s := by
+  rcases h with h | ⟨h1, h2⟩
+  · exact Or.inl h
+  · exact Or.inr ⟨h1, hr h2⟩
 
 theorem collectVidsFolds_append (a b : List FoldIR) :
     collectVidsFolds (a ++ b) = collectVidsFolds a ++ collectVidsFolds b := by
@@ -132,7 +139,8 @@ theorem foldAfterFill_sat {S : SchemaView} (hS : ValidSchemaView S) {st1 : St} {
     (r : St × CD × List FrontErr)
     (hr : FillPost S (foldEnter st1 startVid) CD.empty r.1 r.2.1 (r.2.2 = []))
     (hroot : startVid ∈ r.2.1.vertices.map (·.vid)) :
-    Sat FillSite (foldAfterFill S fg foldEid startVid subName subAlias subHasOutput cd e1 r)
+    Sat (FillSite fg.hasRetr)
+      (foldAfterFill S fg foldEid startVid subName subAlias subHasOutput cd e1 r)
       (fun r' => FillPost S st1 cd r'.1 r'.2.1 (r'.2.2 = [])) := by
   obtain ⟨hfe_inv, hfe_path, hfe_out, hfe_vs, hfe_nv, hfe_ne, hfe_pf, hfe_go⟩ :=
     foldEnter_inv hinv1 startVid
@@ -250,14 +258,14 @@ theorem edgeTail_sat {S : SchemaView} {st st1 : St} {cd cdIn : CD} {v : Vid} {cu
     (h1ne : st.nextEid ≤ st1.nextEid) (h1go : st1.globalOutputs = st.globalOutputs)
     (hverts : ∀ x ∈ cd.vertices, x ∈ cdIn.vertices) (hvids : ∀ x ∈ cdVids cd, x ∈ cdVids cdIn)
     (hcur : ∃ v0 ∈ cd.vertices, v0.vid = cur ∧ v0.postType = postType)
-    (inner : FRes (St × CD × List FrontErr))
-    (hinner : Sat FillSite inner (fun r => FillPost S st1 cdIn r.1 r.2.1 (r.2.2 = [])))
+    {K : Site → Prop} (inner : FRes (St × CD × List FrontErr))
+    (hinner : Sat K inner (fun r => FillPost S st1 cdIn r.1 r.2.1 (r.2.2 = [])))
     (k : St → CD → List FrontErr → FRes (St × CD × List FrontErr)) (errs : List FrontErr)
     (hk : ∀ (st3 : St) (cd3 : CD) (e : List FrontErr), st3.Inv → 0 < st3.outStack.length →
       CD.Inv S st3 cd3 → (∃ v0 ∈ cd3.vertices, v0.vid = cur ∧ v0.postType = postType) →
-      Sat FillSite (k st3 cd3 (errs ++ e))
+      Sat K (k st3 cd3 (errs ++ e))
         (fun r => ∃ more, r.2.2 = (errs ++ e) ++ more ∧ FillPost S st3 cd3 r.1 r.2.1 (more = []))) :
-    Sat FillSite (inner >>= fun r => r.1.endNestedScope v >>= fun st3 => k st3 r.2.1 (errs ++ r.2.2))
+    Sat K (inner >>= fun r => r.1.endNestedScope v >>= fun st3 => k st3 r.2.1 (errs ++ r.2.2))
       (fun r => ∃ more, r.2.2 = errs ++ more ∧ FillPost S st cd r.1 r.2.1 (more = [])) := by
   refine Sat.bind hinner fun r hr => ?_
   have hstep := hr.step
